@@ -13,15 +13,15 @@ func isUnsigned(t types.Type) bool {
 }
 
 func (g *Gen) declStrLt() {
-	if g.declared["str.lt"] {
+	if g.declared["gstr.lt"] {
 		return
 	}
-	g.declareFun("str.lt", "(Str Str) Bool")
+	g.declareFun("gstr.lt", "(Str Str) Bool")
 	g.assumes = append(g.assumes,
-		"(forall ((a Str)) (! (not (str.lt a a)) :pattern ((str.lt a a))))",
-		"(forall ((a Str) (b Str)) (! (or (str.lt a b) (= a b) (str.lt b a)) :pattern ((str.lt a b))))",
-		"(forall ((a Str) (b Str)) (! (not (and (str.lt a b) (str.lt b a))) :pattern ((str.lt a b))))",
-		"(forall ((a Str) (b Str) (c Str)) (! (=> (and (str.lt a b) (str.lt b c)) (str.lt a c)) :pattern ((str.lt a b) (str.lt b c))))")
+		"(forall ((a Str)) (! (not (gstr.lt a a)) :pattern ((gstr.lt a a))))",
+		"(forall ((a Str) (b Str)) (! (or (gstr.lt a b) (= a b) (gstr.lt b a)) :pattern ((gstr.lt a b))))",
+		"(forall ((a Str) (b Str)) (! (not (and (gstr.lt a b) (gstr.lt b a))) :pattern ((gstr.lt a b))))",
+		"(forall ((a Str) (b Str) (c Str)) (! (=> (and (gstr.lt a b) (gstr.lt b c)) (gstr.lt a c)) :pattern ((gstr.lt a b) (gstr.lt b c))))")
 }
 
 // binop: Go binary operator on two values of operand type ot, result type rt.
@@ -55,22 +55,22 @@ func (g *Gen) binop(op token.Token, a, b Val, ot, rt types.Type, st *State) Val 
 			return Val{T: sNot(sEq(a.T, b.T)), S: sBool, G: rt}
 		case token.LSS:
 			g.declStrLt()
-			return Val{T: fmt.Sprintf("(str.lt %s %s)", a.T, b.T), S: sBool, G: rt}
+			return Val{T: fmt.Sprintf("(gstr.lt %s %s)", a.T, b.T), S: sBool, G: rt}
 		case token.GTR:
 			g.declStrLt()
-			return Val{T: fmt.Sprintf("(str.lt %s %s)", b.T, a.T), S: sBool, G: rt}
+			return Val{T: fmt.Sprintf("(gstr.lt %s %s)", b.T, a.T), S: sBool, G: rt}
 		case token.LEQ:
 			g.declStrLt()
-			return Val{T: sNot(fmt.Sprintf("(str.lt %s %s)", b.T, a.T)), S: sBool, G: rt}
+			return Val{T: sNot(fmt.Sprintf("(gstr.lt %s %s)", b.T, a.T)), S: sBool, G: rt}
 		case token.GEQ:
 			g.declStrLt()
-			return Val{T: sNot(fmt.Sprintf("(str.lt %s %s)", a.T, b.T)), S: sBool, G: rt}
+			return Val{T: sNot(fmt.Sprintf("(gstr.lt %s %s)", a.T, b.T)), S: sBool, G: rt}
 		case token.ADD:
-			g.declareFun("str.cat", "(Str Str) Str")
-			t := g.define("cat", sStr, fmt.Sprintf("(str.cat %s %s)", a.T, b.T))
-			g.assume("true", fmt.Sprintf("(= (str.len %s) %s)", t, g.idxAdd(fmt.Sprintf("(str.len %s)", a.T), fmt.Sprintf("(str.len %s)", b.T))))
-			g.assume("true", sImp(sEq(fmt.Sprintf("(str.len %s)", b.T), g.idxLit(0)), sEq(t, a.T)))
-			g.assume("true", sImp(sEq(fmt.Sprintf("(str.len %s)", a.T), g.idxLit(0)), sEq(t, b.T)))
+			g.declareFun("gstr.cat", "(Str Str) Str")
+			t := g.define("cat", sStr, fmt.Sprintf("(gstr.cat %s %s)", a.T, b.T))
+			g.assume("true", fmt.Sprintf("(= (gstr.len %s) %s)", t, g.idxAdd(fmt.Sprintf("(gstr.len %s)", a.T), fmt.Sprintf("(gstr.len %s)", b.T))))
+			g.assume("true", sImp(sEq(fmt.Sprintf("(gstr.len %s)", b.T), g.idxLit(0)), sEq(t, a.T)))
+			g.assume("true", sImp(sEq(fmt.Sprintf("(gstr.len %s)", a.T), g.idxLit(0)), sEq(t, b.T)))
 			return Val{T: t, S: sStr, G: rt}
 		}
 		g.errorf("string op %s", op)
@@ -447,7 +447,14 @@ func (g *Gen) convert(v Val, ft, tt types.Type, st *State) Val {
 				r.T = fmt.Sprintf("((_ to_fp_unsigned %d %d) RNE %s)", eb, sb, v.T)
 			}
 		} else {
-			r.T = fmt.Sprintf("((_ to_fp %d %d) RNE (to_real %s))", eb, sb, v.T)
+			// int mode: bridge through a bit-vector of the operand's width. (z3 answers *unsat* on
+			// goals that convert a symbolic Int through to_real/to_fp/fp.to_real -- measured -- so the
+			// real-valued encoding must not be used.)
+			conv := "to_fp"
+			if !fi.signed {
+				conv = "to_fp_unsigned"
+			}
+			r.T = fmt.Sprintf("((_ %s %d %d) RNE ((_ int2bv %d) %s))", conv, eb, sb, fi.w, v.T)
 		}
 		return r
 	case (fs.K == KF64 || fs.K == KF32) && tIsInt:
@@ -459,14 +466,16 @@ func (g *Gen) convert(v Val, ft, tt types.Type, st *State) Val {
 			}
 			return r
 		}
-		// int mode: truncation toward zero of the real value (unspecified when out of range / NaN)
-		n := g.fresh("f2i")
-		g.declare(n, "Int")
-		rl := fmt.Sprintf("(fp.to_real %s)", v.T)
-		fin := fmt.Sprintf("(and (not (fp.isNaN %[1]s)) (not (fp.isInfinite %[1]s)))", v.T)
-		g.assume("true", sImp(fin, fmt.Sprintf("(ite (>= %[1]s 0.0) (and (<= (to_real %[2]s) %[1]s) (< %[1]s (+ (to_real %[2]s) 1.0))) (and (>= (to_real %[2]s) %[1]s) (> %[1]s (- (to_real %[2]s) 1.0))))", rl, n)))
-		r.T = n
-		g.assume("true", g.wfFact(r, nil))
+		// int mode: truncation toward zero through a bit-vector (unspecified when out of range / NaN)
+		var kb string
+		if ti.signed {
+			kb = g.define("f2i", bvSort(ti.w), fmt.Sprintf("((_ fp.to_sbv %d) RTZ %s)", ti.w, v.T))
+			r.T = fmt.Sprintf("(ite (bvslt %s %s) (- (bv2nat %s) %s) (bv2nat %s))", kb, bvLit(big.NewInt(0), ti.w), kb, pow2(ti.w).String(), kb)
+		} else {
+			kb = g.define("f2i", bvSort(ti.w), fmt.Sprintf("((_ fp.to_ubv %d) RTZ %s)", ti.w, v.T))
+			r.T = fmt.Sprintf("(bv2nat %s)", kb)
+		}
+		r.T = g.define("f2iv", sInt, r.T)
 		return r
 	case (fs.K == KF64 || fs.K == KF32) && (ts.K == KF64 || ts.K == KF32):
 		if fs.K == ts.K {
@@ -487,8 +496,8 @@ func (g *Gen) convert(v Val, ft, tt types.Type, st *State) Val {
 		g.declare(n, sort)
 		st.heap[name] = n
 		g.assume("true", fmt.Sprintf("(forall ((a Int)) (! (=> (not (= a %s)) (= (select %s a) (select %s a))) :pattern ((select %s a))))", id, n, h, n))
-		g.assume("true", fmt.Sprintf("(forall ((k %s)) (! (= (select (select %s %s) k) (str.at %s k)) :pattern ((select (select %s %s) k))))", g.idxSort().SMT(), n, id, v.T, n, id))
-		ln := fmt.Sprintf("(str.len %s)", v.T)
+		g.assume("true", fmt.Sprintf("(forall ((k %s)) (! (= (select (select %s %s) k) (gstr.at %s k)) :pattern ((select (select %s %s) k))))", g.idxSort().SMT(), n, id, v.T, n, id))
+		ln := fmt.Sprintf("(gstr.len %s)", v.T)
 		r.T = fmt.Sprintf("(mk-slice %s %s %s %s)", id, g.idxLit(0), ln, ln)
 		return r
 	case fs.K == KSlice && ts.K == KStr:
@@ -496,16 +505,16 @@ func (g *Gen) convert(v Val, ft, tt types.Type, st *State) Val {
 		es := g.byteSort()
 		name, sort := g.elemMapName(es)
 		h := g.heapGet(st, name, sort)
-		g.declareFun("str.of", fmt.Sprintf("((Array %s %s) %s %s) Str", g.idxSort().SMT(), es.SMT(), g.idxSort().SMT(), g.idxSort().SMT()))
-		t := g.define("sof", sStr, fmt.Sprintf("(str.of (select %s (sl.arr %s)) (sl.off %s) (sl.len %s))", h, v.T, v.T, v.T))
-		g.assume("true", fmt.Sprintf("(= (str.len %s) (sl.len %s))", t, v.T))
-		g.assume("true", fmt.Sprintf("(forall ((k %s)) (! (=> (and %s %s) (= (str.at %s k) (select (select %s (sl.arr %s)) %s))) :pattern ((str.at %s k))))",
+		g.declareFun("gstr.of", fmt.Sprintf("((Array %s %s) %s %s) Str", g.idxSort().SMT(), es.SMT(), g.idxSort().SMT(), g.idxSort().SMT()))
+		t := g.define("sof", sStr, fmt.Sprintf("(gstr.of (select %s (sl.arr %s)) (sl.off %s) (sl.len %s))", h, v.T, v.T, v.T))
+		g.assume("true", fmt.Sprintf("(= (gstr.len %s) (sl.len %s))", t, v.T))
+		g.assume("true", fmt.Sprintf("(forall ((k %s)) (! (=> (and %s %s) (= (gstr.at %s k) (select (select %s (sl.arr %s)) %s))) :pattern ((gstr.at %s k))))",
 			g.idxSort().SMT(), g.idxLe(g.idxLit(0), "k"), g.idxLt("k", fmt.Sprintf("(sl.len %s)", v.T)), t, h, v.T, g.idxAdd(fmt.Sprintf("(sl.off %s)", v.T), "k"), t))
 		r.T = t
 		return r
 	case fIsInt && ts.K == KStr:
-		g.declareFun("str.ofrune", "(Int) Str")
-		r.T = fmt.Sprintf("(str.ofrune %s)", v.T)
+		g.declareFun("gstr.ofrune", "(Int) Str")
+		r.T = fmt.Sprintf("(gstr.ofrune %s)", v.T)
 		return r
 	case fs.K == ts.K:
 		r.T = v.T
